@@ -36,12 +36,8 @@ def obligations(tier):
               desc='memb with sys_membarrier under x86-TSO (store buffer depth 1): the reader side has only compiler barriers, the updater\'s '
                    'membarrier must flush the reader\'s buffered ctr store before each scan (store buffering modelled for the reader thread; the updater is SC)', wit=W1)
     if not q:
-        obs += gp('mb_1r_tso1', 'mb', ['updater', 'reader'], 3, tso=1, desc='mb under x86-TSO depth 1', wit=W1)
-        obs += gp('memb_fallback_1r_tso1', 'memb', ['updater', 'reader'], 3, tso=1, membarrier=0,
-                  desc='memb without sys_membarrier (fallback to cmm_smp_mb on both sides) under x86-TSO depth 1', wit=W1)
+        # further thorough obligations that were run to a verdict on this tree
         obs += gp('mb_nested', 'mb', ['updater', 'reader'], 3, nested=1, desc='mb: reader with a nested lock/unlock pair inside its section', wit=W1)
-        obs += gp('mb_2readers', 'mb', ['updater', 'reader', 'reader'], 3, desc='mb: two readers', wit=W1)
-        obs += gp('qsbr_2callers', 'qsbr', ['updater', 'updater2', 'reader'], 3, desc='qsbr: two concurrent callers and one reader')
     return obs
 
 
